@@ -648,3 +648,22 @@ package tchannel
 //@   property C20
 //@ func (m errorMessage) Error() (s string)
 //@   property C20
+
+// A relaying connection also carries the calls the relay channel makes ITSELF:
+// a frame for an id the relay does not know as a relayed call -- a response or
+// an ERROR frame alike -- is offered to the connection's own outbound exchanges,
+// where such a call waits for its result.
+// unknownid(r): the latest handleNonCallReq on r did not know the frame's id;
+// offered(s): the exchange set s was offered a frame (both volatile).
+//@ ghostfield unknownid volatile
+//@ ghostfield offered volatile
+//@ func (r *Relayer) handleNonCallReq(f *Frame) (shouldRelease bool, err error)
+//@   defines unknownid(r) == ite(err == errUnknownID, 1, 0)
+//@   property C20
+//@ func (mexset *messageExchangeSet) forwardPeerFrame(frame *Frame) (err error)
+//@   defines offered(mexset) == 1
+//@   property C20
+//@ func (r *Relayer) Relay(f *Frame) (shouldRelease bool, err error)
+//@   label frames-for-ids-unknown-to-the-relay-go-to-the-connections-own-calls
+//@   ensures old(f.Header.messageType) != messageTypeCallReq && unknownid(r) == 1 ==> offered(old(r.conn.outbound)) == 1
+//@   property C20
